@@ -777,11 +777,27 @@ pub fn gen_c10(rng: &mut Rng, _tier: Tier) -> Value {
         let n = rng.below(9);
         threads.push(Value::Array(gen_ops(rng, n, kind != "mutex")));
     }
-    let nmain = if threaded { rng.below(5) } else { 1 + rng.below(14) };
-    let main_ops = gen_ops(rng, nmain, kind != "mutex");
+    // 1.5% of the runs: a cardinality spike (hundreds to thousands of distinct keys between two
+    // flushes), which exercises hash-table growth and any size-dependent path
+    let spike = !threaded && rng.chance(0.06) || (kind == "worker" && rng.chance(0.01));
+    let nmain = if spike { 600 + rng.below(2400) } else if threaded { rng.below(5) } else { 1 + rng.below(14) };
+    let main_ops = if spike {
+        let mut ops = vec![];
+        let keys = nmain;
+        for i in 0..nmain {
+            let id = 1_000_000 + i;
+            ops.push(json!({"op":"send","id":id,"key":format!("hk{}", (i * 7919) % keys),"weight":rng.below(1000),"last":rng.below(1_000_000)}));
+            if rng.chance(0.0007) {
+                ops.push(json!({"op":"flush","mode":"await"}));
+            }
+        }
+        ops
+    } else {
+        gen_ops(rng, nmain, kind != "mutex")
+    };
     let sched = gen_sched(
         rng,
-        &SchedOpts { est_choices: 200, threads: nthreads + 2, jump_max_ns: if threaded { 20 * interval.min(1_000_000_000) } else { 0 }, stall_clock_max_ns: interval.min(1_000_000_000) * 3, max_steps: 80_000 },
+        &SchedOpts { est_choices: 200, threads: nthreads + 2, jump_max_ns: if threaded { 20 * interval.min(1_000_000_000) } else { 0 }, stall_clock_max_ns: interval.min(1_000_000_000) * 3, max_steps: if spike { 400_000 } else { 80_000 } },
     );
     json!({
         "scenario": "aggregation",
@@ -821,6 +837,9 @@ impl Scenario for Aggregation {
         let mut r = Report::default();
         let threaded = out.threads >= 2;
         r.nontrivial = if threaded { out.preemptions >= 1 } else { inputs_of(plan).len() >= 2 };
+        if inputs_of(plan).len() >= 600 {
+            r.probe("cardinality_spike", 1);
+        }
         r.case_sig = mix(out.sig, hash_value(&json!([plan.get("threads"), plan.get("main_ops"), plan.get("kind")])));
         let failure = out.failure.clone();
         let main_panic = out.main_panic.clone();
@@ -871,7 +890,7 @@ impl Scenario for Aggregation {
         r
     }
     fn probes(&self) -> Vec<&'static str> {
-        vec!["kind_keyed", "kind_tee", "kind_worker", "kind_worker_tee", "kind_mutex", "timed_flush_checked", "worker_last_handle_dropped"]
+        vec!["cardinality_spike", "kind_keyed", "kind_tee", "kind_worker", "kind_worker_tee", "kind_mutex", "timed_flush_checked", "worker_last_handle_dropped"]
     }
     fn components(&self) -> Value {
         json!({
